@@ -1,6 +1,8 @@
 import CoercionModel.Proofs.Walk
 import CoercionModel.Proofs.WalkChain
 import CoercionModel.Generated.F5
+import CoercionModel.Model.SkeletonsMore
+import CoercionModel.Generated.F12
 /-
   C19 — Walk visits every object once, in execution order, with its ancestors; stops at once.
 
@@ -135,5 +137,10 @@ def ex : Plan :=
 example : (all ex).map (·.id) = [1,2,3,4,5,6,7,8,9,10,11,12,13,14,15] := by decide
 example : ((all ex).map (·.chain))[7]! = [1,4,6] := by decide
 example : (run (stopAt 5) ex).out.map (·.id) = [1,2,3,4,5] := by decide
+
+set_option maxRecDepth 100000 in
+/-- the code this property's model mirrors still has the shape the model was written against (control-flow
+    skeletons regenerated from /repo on every run, Model/SkeletonsMore) -/
+theorem facts_model_skeleton : Generated.F12.walk = SkeletonsMore.walk := by decide +kernel
 
 end Coercion.C19
